@@ -9,7 +9,7 @@ A case arrives as the history the harness RECORDED on the real writer, in stamp 
 then `explain`: the driver builds the `Lin.History`, runs the checker (`Lin.judge` = `Lin.explains` + the reason), and —
 with the order the checker found — replays the whole recorded history as an execution of the model `Lin.step`
 (every event must be `enabled`: the hypothesis `WF` of the C05 theorems evaluated on the real events), then
-  `root epoch creator ## content`, `reader r epoch ## content`, `final epoch ## content`
+  `root epoch creator ## n=<Count> content`, `reader r epoch ## n=<Count> content`, `final epoch ## n=<Count> content`
 are answered with what the MODEL holds for that published root / reader. -/
 open Bluge Bluge.Index Bluge.Lin
 
@@ -266,7 +266,7 @@ def c05step (r : Rec) (op : String) (impl : String) : Rec × String :=
         | none => 0
       match pubContent s n with
       | some ds =>
-        let m := showDocs ds
+        let m := "n=" ++ toString ds.length ++ " " ++ showDocs ds
         (r, m ++ sep ++ (if m == impl then "ok" else "bad:published-root-is-not-a-prefix-state expected " ++ m))
       | none => (r, "?" ++ sep ++ "bad:assumption-root-swap-not-replayed")
     | _, _ => (r, impl ++ sep ++ "na")
@@ -275,14 +275,14 @@ def c05step (r : Rec) (op : String) (impl : String) : Rec × String :=
     | some s, some rid =>
       match s.reads.find? (fun rd => rd.r == rid) with
       | some rd =>
-        let m := showDocs rd.content
+        let m := "n=" ++ toString rd.content.length ++ " " ++ showDocs rd.content
         (r, m ++ sep ++ (if m == impl then "ok" else "bad:reader-not-prefix expected " ++ m))
       | none => (r, "?" ++ sep ++ "bad:assumption-reader-not-replayed")
     | _, _ => (r, impl ++ sep ++ "na")
   | ["final", _] =>
     match r.model with
     | some s =>
-      let m := showDocs s.core.root.abs
+      let m := "n=" ++ toString s.core.root.abs.length ++ " " ++ showDocs s.core.root.abs
       (r, m ++ sep ++ (if m == impl then "ok" else "bad:not-linearizable final-content expected " ++ m))
     | none => (r, impl ++ sep ++ "na")
   | ["end"] => (r, "closed" ++ sep ++ "ok")
